@@ -24,8 +24,10 @@ Oracles, at every radius and grid point (lam = K - 2 mu/3 computed by the harnes
              of every term that cancels in sigma_rr, see _srr_scale - the identity holds through the Laplace identity,
              so near the poles the cot/sin^-2 terms set the rounding level)
              sigma_rth == y4 U_th, sigma_rph == y4 U_ph / sin th   |err| <= TRAC_TOL * |y4| |dU|
-  heating    dtype float64, finite, >= 0, == |Im sum_k w_k sigma_k conj(eps_k)|, w = (1,1,1,2,2,2)
-                                                                   |err| <= HEAT_TOL * sum_k w_k |sigma_k||eps_k|
+  heating    dtype float64, finite, >= -HEAT_TOL*scale (non-negative to rounding), == c |Im sum_k w_k sigma_k conj(eps_k)|,
+             w = (1,1,1,2,2,2), with one positive constant c per case (median ratio over the points whose dissipation
+             is > 1e-6 of the scale; c in [1e-3,1e3]; the statement fixes no normalisation such as omega/2)
+                                                                   |err| <= HEAT_TOL * c * sum_k w_k |sigma_k||eps_k|
   elastic    real moduli: heating <= ELASTIC_TOL * sum_k w_k (|sigma_k| + 2|mu||eps_k| + (|K|+|mu|) sum_diag|eps|) |eps_k|
              (real y: exactly 0 is expected; complex y with real moduli: sigma_k conj(eps_k) sums to a real number only
              after cancellation, tolerance ELASTIC_CY_TOL on the same scale)
@@ -398,19 +400,34 @@ def evaluate(case):
     hok = heating.dtype == np.float64 and bool(np.all(np.isfinite(heating)))
     c.check(hok, {'clause': 'heating', 'what': 'real_finite'}, '%s: heating dtype %r, finite=%r' % (ctx, heating.dtype, hok))
     if hok:
-        c.check(bool(np.all(heating >= 0.0)), {'clause': 'heating', 'what': 'nonnegative'},
-                '%s: min heating %r' % (ctx, float(np.min(heating))))
         wv = W.reshape(6, 1, 1, 1, 1)
         want_h = np.abs(np.sum(wv * (stresses * np.conj(strains)).imag, axis=0))
         hscale = np.sum(wv * np.abs(stresses) * aeps, axis=0)
-        ratio = np.abs(heating - want_h) / (hscale + tiny)
-        _stat('heating/value', np.max(ratio))
-        if not np.all(ratio <= HEAT_TOL):
-            i = where(ratio)
-            c.fail({'clause': 'heating', 'what': 'value'},
-                   '%s: heating=%r but |Im sum w sigma conj(eps)|=%r at index %r, err/scale=%.3e; sigma=%r eps=%r'
-                   % (ctx, float(heating[i]), float(want_h[i]), i, float(ratio[i]),
-                      [complex(v) for v in stresses[(slice(None),) + i]], [complex(v) for v in strains[(slice(None),) + i]]))
+        # non-negative up to rounding: an implementation without abs() may return -1e-16*scale for an exact zero
+        c.check(bool(np.all(heating >= -HEAT_TOL * hscale)), {'clause': 'heating', 'what': 'nonnegative'},
+                '%s: min heating %r (min heating/scale %.3e)' % (ctx, float(np.min(heating)),
+                                                                 float(np.min(heating / (hscale + tiny)))))
+        # "derived from them": heating == c * |Im sum_k w_k sigma_k conj(eps_k)| with ONE positive constant c for all
+        # points of the case (the statement fixes no normalisation such as omega/2); c = median ratio over the points
+        # where the dissipation is not a cancellation residue.
+        sig_pts = want_h > 1e-6 * hscale
+        if np.any(sig_pts) and np.all(hscale[sig_pts] > 1e-250):
+            cfac = float(np.median(heating[sig_pts] / want_h[sig_pts]))
+            c.label('heating:c=1' if abs(cfac - 1.0) <= 1e-9 else 'heating:c!=1')
+            if not (math.isfinite(cfac) and 1e-3 <= cfac <= 1e3):
+                c.fail({'clause': 'heating', 'what': 'value'},
+                       '%s: heating / |Im sum w sigma conj(eps)| has median %r over %d points (no positive constant in [1e-3,1e3])'
+                       % (ctx, cfac, int(np.sum(sig_pts))))
+            else:
+                ratio = np.abs(heating - cfac * want_h) / (cfac * hscale + tiny)
+                _stat('heating/value', np.max(ratio))
+                if not np.all(ratio <= HEAT_TOL):
+                    i = where(ratio)
+                    c.fail({'clause': 'heating', 'what': 'value'},
+                           '%s: heating=%r but c*|Im sum w sigma conj(eps)|=%r (c=%r, median ratio over %d points) at index %r, '
+                           'err/scale=%.3e; sigma=%r eps=%r'
+                           % (ctx, float(heating[i]), cfac * float(want_h[i]), cfac, int(np.sum(sig_pts)), i, float(ratio[i]),
+                              [complex(v) for v in stresses[(slice(None),) + i]], [complex(v) for v in strains[(slice(None),) + i]]))
         if case['mode'] != 'visco':
             tol = ELASTIC_TOL if case['mode'] == 'elastic' else ELASTIC_CY_TOL
             # scale: magnitudes of the terms of sigma (2 mu eps_k and lam tr(eps) may cancel inside sigma_k, and their
